@@ -256,3 +256,11 @@ Example C05_glob_pattern_ok :
 Proof.
   intros c [<-|[<-|[]]] H; [discriminate H | split; reflexivity].
 Qed.
+
+(* ---- OPEN / Create on the name space: the tree stays well formed, a failure changes nothing, and the only change there can be
+   is one new file entry at a free name, under O_CREATE ---- *)
+Theorem C05_open_effect : forall creat excl wr t p c t', FsTree.wf t -> FsTree.p_open creat excl wr t p = Some (c, t') ->
+  FsTree.wf t' /\ (c <> FsTree.TOk -> t' = t) /\
+  (t' = t \/ (c = FsTree.TOk /\ creat = true /\ FsTree.kind_at t p = None /\ t' = t ++ [(p, FsTree.KFile)])).
+Proof. exact TreeRenameP.open_effect. Qed.
+Print Assumptions C05_open_effect.
